@@ -318,9 +318,10 @@ impl Prop for C13 {
         // provided iterator methods (nth, skip, step_by, last, count) on both iterator flavours
         {
             let qref = &qv;
-            crate::props::c12::check_adapters(&|| -> Box<dyn Iterator<Item = u8> + '_> { Box::new(qref.iter()) }, &model, n as u64 + 1, "QVector iter()", ctx)?;
+            crate::iteradapt::check_adapters(|| qref.iter(), &model, n as u64 + 1, "QVector iter()", ctx)?;
+            crate::iteradapt::check_adapters(|| <&QVector as IntoIterator>::into_iter(qref), &model, n as u64 + 3, "QVector (&qv).into_iter()", ctx)?;
             if n <= 5000 {
-                crate::props::c12::check_adapters(&|| -> Box<dyn Iterator<Item = u8> + '_> { Box::new(qref.clone().into_iter()) }, &model, n as u64 + 2, "QVector into_iter()", ctx)?;
+                crate::iteradapt::check_adapters(|| qref.clone().into_iter(), &model, n as u64 + 2, "QVector into_iter()", ctx)?;
             }
         }
         let rebuilt: QVector = model.iter().copied().collect();
